@@ -24,6 +24,9 @@ import Rooc.Proofs.WFRel2An
 import Rooc.Proofs.RefLemmas
 import Rooc.Proofs.WFOccur
 import Rooc.Proofs.WFCompileOrdered
+import Rooc.Proofs.WFErrKind
+import Rooc.LinErrText
+import Rooc.Gen.LinConsts
 namespace Rooc.Props.C08
 open Rooc Rooc.Lin Rooc.WFDedup Rooc.Lin.Examples
 
@@ -675,5 +678,65 @@ example : ∃ lm : LinModel (Ext ℚ), Compile.linearize exA (.fin 0) 0 = .ok lm
     hdecl hord hfin
   rw [fieldExact_rat] at key
   exact ⟨_, hc, key hc⟩
+
+/-! ### 14. which errors the compiler can report: `UnimplementedExpression` is dead code
+
+`Exp::linearize` raises `UnimplementedExpression` for the operator-form logic nodes (`BinOp::And | Or | Xor |
+Implies | Iff`, `UnOp::Not`).  Behind `Linearizer::linearize` these two branches are unreachable: every expression
+handed to `Exp::linearize` is a sub-term of the result of `normalize` (`simplify ∘ flatten ∘ simplify`), and `simplify`
+rewrites every operator-form logic node into the n-ary / dedicated node (`Lin.simplify_noOp`, for EVERY input).  The
+proof is an error-kind pass over every action of the lowering (`Proofs/WFErrKind.lean`, `EK Q x`: every error `x` can
+raise satisfies `Q`).  The harness agrees: 0 `err:UnimplementedExpression` in every tier, although the generators do
+produce operator-form nodes (stream `targeted-error`). -/
+
+/-- the lowering never reports `UnimplementedExpression`, for any model, bounds map, domain and number type. -/
+theorem lowering_never_unimplemented (m : Model α) (b : BoundsMap α) (d : List (DomVar α)) :
+    linearizeWith m b d ≠ .error .unimplemented :=
+  linearizeWith_not_unimplemented m b d
+
+/-- the errors of the whole compiler: one of the six other kinds of `LinearizationError` (or the model-only `fuel`). -/
+theorem compile_error_kinds {m : Model α} {tol : α} {maxSteps : Nat} {err : LinErr}
+    (h : Compile.linearize m tol maxSteps = .error err) :
+    err = .nonLinear ∨ err = .divisionByZero ∨ (∃ k, err = .emptyAggregation k) ∨
+      (∃ n, err = .varAlreadyDeclared n) ∨ err = .nonBinaryLogicOperand ∨
+      (∃ vs, err = .missingFiniteBounds vs) ∨ err = .fuel := by
+  cases err with
+  | unimplemented => exact absurd h (compile_not_unimplemented m tol maxSteps)
+  | _ => simp
+
+/-- `simplify` removes the operator-form nodes: `a and b` written with `BinOp::And` becomes the n-ary `And`. -/
+example : NoOp (Exp.simplify (.bin .and (.var "a") (.un .not (.var "b")) : Exp (Ext Rat))) = true :=
+  simplify_noOp _
+
+/-! ### 15. constants of `linearizer.rs` read from the Rust source
+
+`tools/extract.py` re-reads, on every `./check`, (a) the `format!` literal of every name handed to
+`declare_variable` and (b) the `write!` templates of `impl Display for LinearizationError`, and regenerates
+`Rooc/Gen/LinConsts.lean` (it fails loudly when a name is built in any other way).  The theorems below break when
+the Rust source changes one of them; the dynamic side — the model mints the same names and renders the same
+messages — is the bit-exact diff (`linearize`, `linerr-display` requests). -/
+
+/-- every auxiliary name the Rust source can mint begins with `$` (the premise of `aux-name-collision`:
+auxiliaries live in a namespace no identifier of the rooc grammar can reach). -/
+theorem rust_aux_names_dollar_prefixed :
+    Gen.linAuxNameFormats.all (fun s => s.toList.head? == some '$') = true := by decide
+
+/-- the prefixes the model uses for its auxiliaries (`WFInv.isAux_*`) are those of the Rust source. -/
+theorem model_aux_prefixes_are_the_rust_ones :
+    ∀ p ∈ ["$and_", "$or_", "$implies_", "$iff_", "$xor_", "$abs_", "$logic_witness_", "$"],
+      ∃ f ∈ Gen.linAuxNameFormats, p.toList.isPrefixOf f.toList = true := by decide
+
+/-- the message templates of the model (`Lin.LinErr.template`) are the `write!` templates of the Rust source. -/
+theorem error_templates_are_the_rust_ones : Lin.linErrTemplates = Gen.linErrorTemplates := rfl
+
+-- `format!` substitution on the longest template
+set_option maxRecDepth 100000 in
+example : LinErr.text "|x|" "an exact value" "-inf" "inf" (.missingFiniteBounds ["x", "y"]) =
+    "Cannot linearize \"|x|\" in an exact value with derived bounds [-inf, inf]. Variables without finite bounds: x, y. Declare finite bounds or add constraints from which finite bounds can be inferred" := by
+  rfl
+set_option maxRecDepth 100000 in
+example : LinErr.text "e" "r" "l" "u" (.missingFiniteBounds []) =
+    "Cannot linearize \"e\" in r with derived bounds [l, u]. Variables without finite bounds: none identified. Declare finite bounds or add constraints from which finite bounds can be inferred" := by
+  rfl
 
 end Rooc.Props.C08
